@@ -179,18 +179,19 @@ def _lcg(seed):
 
 
 def heavy_tail_pairs(n, seed=7):
-    """preferential-attachment-like: node i (i>=1) attaches to 1..2 earlier
-    nodes, biased to low ids (target = r*r / i) -> a few hubs."""
+    """undirected pairs of a connected graph with a heavy-tailed degree
+    sequence: node i (i>=1) attaches to 1 or 2 EARLIER nodes whose ids are
+    pushed towards 0 by squaring twice, so node 0 becomes a hub (degree ~n/2),
+    a handful of nodes get degree 5-11 and most get 1-3.  The numbers come
+    from the fixed sequence _lcg(seed): one fixed graph per (n, seed)."""
     r = _lcg(seed)
     und = set()
     for i in range(1, n):
         k = 1 + (next(r) % 2)
         for _ in range(k):
             x = next(r) % (i * i)
-            t = int(x ** 0.5)
-            t = i - 1 - t  # many hits on small ids
+            t = i - 1 - int(x ** 0.5)
             t = max(0, min(i - 1, t))
-            # bias again: square towards 0
             t = (t * t) // max(1, i - 1)
             und.add((t, i))
     return sorted(und)
